@@ -27,6 +27,7 @@ ALSO = {"search.active": ["C10"], "search.sound": ["C28"], "vsearch.same": ["C13
 DEV_OWNER = {"D09_sketch_recall": "C09", "D16_pagination": "C16"}
 AS_BUILT = eng_core.AS_BUILT + ["D16_pagination"]
 
+VOCAB_WORDS = ["alpha", "bravo", "carbon", "delta", "ember", "fjord", "gamma", "harbor"]
 TENANTS = ["acme", "globex"]
 ROLES = ["admin", "reader"]
 GROUPS = ["g1", "g2"]
@@ -48,8 +49,13 @@ def rand_acl(rng):
 
 def rand_ctx(rng):
     c = {"roles": rng.sample(ROLES, rng.randint(0, 2)), "groups": rng.sample(GROUPS, rng.randint(0, 1))}
-    if rng.random() < 0.9:
+    r = rng.random()
+    if r < 0.8:
         c["tenant"] = rng.choice(TENANTS)
+    elif r < 0.92:
+        # a tenant id that normalises to nothing (blank, or a JSON-quoted blank): the same as no tenant
+        c["tenant"] = rng.choice(["", "   ", '""', ' "" ', '"  "'])
+        c["blank"] = True
     if rng.random() < 0.6:
         c["subject"] = rng.choice(PRINC)
     return c
@@ -112,9 +118,15 @@ def battery(rng, qid0, ndocs, quick, light=False):
         # uri filter
         q({"op": "search", "toks": ["w%d" % rng.choice(words)], "top_k": 20, "uri": "mv2://q/%d" % rng.randrange(max(1, ndocs)), "no_sketch": True}, keep=False)
         # the other retrieval paths
-        for nm in ("vtext", "adaptive", "ask"):
+        for nm in ("vtext", "adaptive", "ask", "ask", "ask"):
             d = {"op": nm, "toks": ["w%d" % rng.choice(words)], "top_k": 10, "emb": rng.randint(1, 9)}
-            if rng.random() < 0.6:
+            if nm == "ask" and rng.random() < 0.7:
+                # question shapes that take other retrieval routes inside ask (analytical / recency / aggregation)
+                w1, w2 = rng.sample(VOCAB_WORDS, 2)
+                d["q"] = rng.choice(["compare %s vs %s over time", "what is the difference between %s and %s", "how did %s change compared to %s",
+                                     "what is the latest %s and %s", "how many %s mention %s"]) % (w1, w2)
+                d.pop("toks")
+            if rng.random() < 0.75:
                 d["mode"] = "enforce"
                 d["ctx"] = rand_ctx(rng)
             q(d, keep=False)
@@ -153,6 +165,11 @@ def scenario(rng, quick, n):
     again = [dict(q) for q in b2 if "qid" in q]
     ops += [{"op": "close"}, {"op": "open"}] + again + [{"op": "close"}, {"op": "open_ro"}] + [dict(q) for q in again] + [{"op": "close"}]
     ops += [{"op": "doctor", "lex": True, "vec": True, "time": True}, {"op": "open"}] + [dict(q) for q in again] + [{"op": "close"}]
+    # a later session that mutates before it reads: the persisted indexes must be carried over by its commit
+    extra = {"op": "put", "uri": "mv2://q/late", "pay": 900, "cls": "text", "size": 60, "ts": 7, "words": [0], "atoms": ["w0"], "emb": rng.randint(1, 9)}
+    late, _ = battery(rng, 5000, n + len(victims) + 1, quick, light=True)
+    ops += [{"op": "open"}, extra, {"op": "commit"}] + late + [{"op": "close"}, {"op": "open"}, {"op": "put", "uri": "mv2://q/late2", "pay": 901, "cls": "bin", "size": 50, "ts": 8},
+            {"op": "abandon"}, {"op": "open"}] + [dict(q) for q in late if q["op"] == "vsearch"] + [{"op": "vecset"}, {"op": "close"}]
     # the pre-commit queries carried qids of a table that no longer exists: drop their qids
     seen_commit = False
     for o in ops:
